@@ -37,6 +37,15 @@ theorem C11_ok_sound (c : Cfg) (sv : List Srv) (picks : List Nat) (loc : List Na
       refine ⟨e, hmem.1, hmem.2, ?_⟩
       rw [hloc, hi.loc, hok]; rfl
 
+/-- With services that answer 200 only with the locator `L` they issue for this hash and size
+(honest services), a successful write of want > 0 replicas returns exactly `L`. -/
+theorem C11_locator_issued (c : Cfg) (sv : List Srv) (picks : List Nat) (loc L : List Nat) (n : Int)
+    (s : St) (honest : ∀ x k, (c.script x k).code = 200 → (c.script x k).body = L)
+    (hw : 0 < c.want) (h : put c sv picks = some (.ok loc n, s)) : loc = L := by
+  obtain ⟨e, _, h200, hloc⟩ := (C11_ok_sound c sv picks loc n s h).2.2.2 hw
+  rw [hloc]
+  exact honest e.1 e.2 (by simpa [is200] using h200)
+
 /-- Otherwise the result is the insufficient-replicas error (the only other result the machine
 has), and the count returned is the number confirmed by the processed 200 answers, which is less
 than `want`. -/
@@ -87,6 +96,24 @@ theorem C11_retry_rule (c : Cfg) (sv : List Srv) (picks : List Nat) (r : Res) (s
   · intro x
     have := ho.cnt x
     split at this <;> omega
+
+/-- The requests to one service are its attempts 0, 1, 2, … without gaps: a request in round k
+means a request in every earlier round (so "round" is "attempt number of that service"). -/
+theorem C11_attempts_contiguous (c : Cfg) (sv : List Srv) (picks : List Nat) (r : Res) (s : St)
+    (h : put c sv picks = some (r, s)) :
+    ∀ k x, (x, k) ∈ s.reqLog → ∀ j, j ≤ k → (x, j) ∈ s.reqLog := by
+  have ht := run_preserved (trace_preserved c sv) _ _ _ _ _ (trace_init c sv) h
+  intro k
+  induction k with
+  | zero =>
+    intro x hm j hj
+    have : j = 0 := by omega
+    subst this; exact hm
+  | succ n ih =>
+    intro x hm j hj
+    by_cases hjn : j = n + 1
+    · subst hjn; exact hm
+    · exact ih x (ht.respReq _ (ht.reqPrev x n hm).1) j (by omega)
 
 /-- When the client gives up, it has asked every writable service, and every service that gave a
 transient answer has been asked again until the retry limit. -/
